@@ -46,7 +46,11 @@ theorem terminates (env : Env) (wf : WF env) (hfin : AllFinal env) :
   intro s hu
   exact main (bound env s) s (Nat.le_refl _) hu
 
-/-- FINAL STATE of an object that is not being deleted (and that the framework is not blind to).
+/-- FULL STATEMENT (property): the same without `idle env = false`. That is FALSE of the code
+    (`idle_fns_lost_wakeup_witness`, open finding C03-N1): a non-empty patch for which no request is sent
+    (only `patch.fns` without operations) cancels the sleep-and-touch, and the loop goes quiescent with the
+    cycle open. PROVED HERE under that guard:
+    FINAL STATE of an object that is not being deleted (and that the framework is not blind to).
     Whenever the loop has consumed its pending event(s) and nothing is pending any more: the recorded
     last-handled state IS the object's essence, nothing initial is outstanding, NO progress record of
     any owned handler remains, and the framework has stopped writing — even a further (re-)delivered
@@ -54,7 +58,7 @@ theorem terminates (env : Env) (wf : WF env) (hfin : AllFinal env) :
     only request it can cause is the constant part of the patch that changes nothing (`cp env`: 0 unless
     e.g. an `on.event` handler returns a constant). (No hypothesis on the handlers: a safety property of
     every quiescent state.) -/
-theorem final_state (env : Env) (hpm : env.prematch = true) (m : Nat) :
+theorem final_state_partial (env : Env) (hni : idle env = false) (hpm : env.prematch = true) (m : Nat) :
     ∀ (s : State E), s.pending = true → s.gone = false → s.marked = false →
       (iter env m s).pending = false →
       (iter env m s).base = some s.ess ∧
@@ -72,7 +76,7 @@ theorem final_state (env : Env) (hpm : env.prematch = true) (m : Nat) :
     cases hp' : (loopStep env s).pending
     · -- quiescence is reached by this very turn
       rw [iter_quiescent env m _ hp']
-      obtain ⟨hb, hi, hn, hg2, hm2, ha2⟩ := quiescent_after_step env s hp hg hpm hmk hp'
+      obtain ⟨hb, hi, hn, hg2, hm2, ha2⟩ := quiescent_after_step env hni s hp hg hpm hmk hp'
       have hb' : (loopStep env s).base = some (loopStep env s).ess := by rw [hb, loopStep_ess]
       obtain ⟨h1, h2, h3, h4⟩ := settled_event_no_write env (loopStep env s) hb' hi hn hg2 hm2 ha2
       refine ⟨hb, ?_, hn, h1, h2, h3, h4⟩
@@ -93,10 +97,11 @@ theorem final_state (env : Env) (hpm : env.prematch = true) (m : Nat) :
       rw [loopStep_ess] at h
       exact h
 
-/-- FINAL STATE of an object that is being deleted and held by the framework's finalizer: whenever
+/-- (Guard `idle env = false` as for `final_state_partial`.)
+    FINAL STATE of an object that is being deleted and held by the framework's finalizer: whenever
     nothing is pending any more, the own finalizer has been removed — the object is gone, unless
     somebody else's finalizer still holds it ("gone or released"). -/
-theorem final_state_deleted (env : Env) (m : Nat) :
+theorem final_state_deleted_partial (env : Env) (hni : idle env = false) (m : Nat) :
     ∀ (s : State E), s.pending = true → s.gone = false → s.marked = true → s.blocked = true →
       (iter env m s).pending = false →
       (iter env m s).blocked = false ∧ (iter env m s).gone = !env.foreignFins := by
@@ -105,7 +110,7 @@ theorem final_state_deleted (env : Env) (m : Nat) :
   | succ m ih =>
     intro s hp hg hmk hbl hq
     simp only [iter] at hq ⊢
-    rcases marked_step env s hp hg hmk hbl with ⟨hp', hg', hm', hb'⟩ | ⟨hb', hg'⟩
+    rcases marked_step env hni s hp hg hmk hbl with ⟨hp', hg', hm', hb'⟩ | ⟨hb', hg'⟩
     · exact ih (loopStep env s) hp' hg' hm' hb' hq
     · -- released by this turn; nothing can be pending on a gone object, and a surviving one is FREE
       cases hp' : (loopStep env s).pending
@@ -169,40 +174,40 @@ theorem final_state_deleted (env : Env) (m : Nat) :
         exact ⟨h1, by rw [h2, hg']⟩
 
 /-- CONVERGENCE = termination + final state, for an object that is not being deleted. -/
-theorem converges (env : Env) (wf : WF env) (hfin : AllFinal env) (hpm : env.prematch = true)
+theorem converges_partial (env : Env) (wf : WF env) (hfin : AllFinal env) (hni : idle env = false) (hpm : env.prematch = true)
     (s : State E) (hu : Uniform env s) (hp : s.pending = true) (hg : s.gone = false) (hmk : s.marked = false) :
     ∃ m, m ≤ bound env s ∧ (iter env m s).pending = false ∧ (iter env m s).base = some s.ess ∧
       (∀ i ∈ env.owned, (iter env m s).P i = none) ∧
       (loopStep env { iter env m s with pending := true }).writes = (iter env m s).writes + cp env ∧
       (loopStep env { iter env m s with pending := true }).pending = false := by
   obtain ⟨m, hm, hq⟩ := terminates env wf hfin s hu
-  obtain ⟨h1, _, h2, h3, h4, _⟩ := final_state env hpm m s hp hg hmk hq
+  obtain ⟨h1, _, h2, h3, h4, _⟩ := final_state_partial env hni hpm m s hp hg hmk hq
   exact ⟨m, hm, hq, h1, h2, h3, h4⟩
 
 /-- CONVERGENCE of a deletion: the delete handlers stop failing ⇒ within `bound env s` turns the own
     finalizer is released and the object is gone (or left to the foreign finalizers). This is the
     "is ever released" half that a one-cycle statement about the finalizer cannot give. -/
-theorem deletion_converges (env : Env) (wf : WF env) (hfin : AllFinal env)
+theorem deletion_converges_partial (env : Env) (wf : WF env) (hfin : AllFinal env) (hni : idle env = false)
     (s : State E) (hu : Uniform env s) (hp : s.pending = true) (hg : s.gone = false)
     (hmk : s.marked = true) (hbl : s.blocked = true) :
     ∃ m, m ≤ bound env s ∧ (iter env m s).pending = false ∧
       (iter env m s).blocked = false ∧ (iter env m s).gone = !env.foreignFins := by
   obtain ⟨m, hm, hq⟩ := terminates env wf hfin s hu
-  obtain ⟨h1, h2⟩ := final_state_deleted env m s hp hg hmk hbl hq
+  obtain ⟨h1, h2⟩ := final_state_deleted_partial env hni m s hp hg hmk hbl hq
   exact ⟨m, hm, hq, h1, h2⟩
 
 /-- The cycle is closed — the last-handled state becomes the essence — exactly by a pass after which
     every handler selected for the outstanding change has a final outcome on record; a turn of the loop
     changes the last-handled state in no other way. -/
 theorem all_selected_completed (env : Env) (wf : WF env) (s : State E) (hp : s.pending = true)
-    (hg : s.gone = false) (hh : isHandler s = true) (hne : (env.sel (causeOf s)).isEmpty = false) :
+    (hg : s.gone = false) (hh : isHandler s = true) (hne : (selOf env s).isEmpty = false) :
     ((pass env s).closed = true ↔
-      ∀ i ∈ env.sel (causeOf s), ∃ h, postState (cfgOf env s) s.P s.now s.now env.exec i = some h ∧
+      ∀ i ∈ selOf env s, ∃ h, postState (cfgOf env s) s.P s.now s.now env.exec i = some h ∧
         h.r.finished = true) ∧
     ((loopStep env s).base = (if (pass env s).closed then some s.ess else s.base) ∨
      (loopStep env s).base = s.base) := by
   constructor
-  · exact closed_iff_all_finished (cfgOf env s) s.P s.now s.now env.exec (fun i hi => wf.sub _ i hi) hh hne
+  · exact closed_iff_all_finished (cfgOf env s) s.P s.now s.now env.exec (fun i hi => selOf_sub env wf s i hi) hh hne
   · rcases turn_cases env s hp hg with ⟨_, _, _, _, h⟩ | ⟨_, _, h⟩ | ⟨_, _, h⟩ | ⟨_, _, _, _, _, h⟩ | ⟨_, _, _, _, h⟩
     · right; rw [h]; rfl
     · right; rw [h]; rfl
@@ -221,23 +226,28 @@ def CompletedIn (env : Env) (s : State E) (m k : Nat) (i : Id) : Prop :=
 /-- FULL STATEMENT (property): every handler selected for the outstanding change has completed against
     the object's FINAL essential state, i.e. in one of the passes of the silent tail (turns `0..m`, the
     `m`-th being the closing one; every one of them is a pass on `s.ess`):
-      `∀ i ∈ env.sel (causeOf s), ∃ k ≤ m, CompletedIn env s m k i`.
-    That is FALSE of the code (`absorbed_change_witness`: known finding C03-F4). PROVED HERE under the
-    exact guard: the handler is not yet recorded as finished when the last change arrives. -/
-theorem completed_against_final_partial (env : Env) (wf : WF env) (hpm : env.prematch = true) (m : Nat) :
+      `∀ i ∈ selOf env s, ∃ k ≤ m, CompletedIn env s m k i`.
+    That is FALSE of the code (`absorbed_change_witness`: known finding C03-F4; `shared_id_witness`: C03-N3).
+    PROVED HERE under the exact guard: the handler is not yet recorded as finished when the last change
+    arrives (and `idle env = false`, see `final_state_partial`). -/
+theorem completed_against_final_partial (env : Env) (wf : WF env) (hni : idle env = false)
+    (hpm : env.prematch = true) (m : Nat) :
     ∀ (s : State E), s.pending = true → s.gone = false → adjusting env s = false → isHandler s = true →
-      (env.sel (causeOf s)).isEmpty = false →
       (∀ k < m, (pass env (iter env k s)).closed = false) → (pass env (iter env m s)).closed = true →
-      ∀ i ∈ env.sel (causeOf s), unfin s.P i = true → ∃ k, k ≤ m ∧ CompletedIn env s m k i := by
+      ∀ i ∈ selOf env s, unfin s.P i = true → ∃ k, k ≤ m ∧ CompletedIn env s m k i := by
   induction m with
   | zero =>
-    intro s hp hg _ hh hne _ hc i hi hu
+    intro s hp hg _ hh _ hc i hi hu
+    have hne : (selOf env s).isEmpty = false := by
+      cases hl : selOf env s with
+      | nil => rw [hl] at hi; simp at hi
+      | cons a as => rfl
     refine ⟨0, Nat.le_refl _, hu, Or.inr ⟨rfl, ?_⟩⟩
     exact (all_selected_completed env wf s hp hg hh hne).1.1 hc i hi
   | succ m ih =>
-    intro s hp hg ha hh hne hopen hc i hi hu
+    intro s hp hg ha hh hopen hc i hi hu
     have h0 : (pass env s).closed = false := hopen 0 (Nat.succ_pos _)
-    obtain ⟨now', w, h⟩ := open_next env s hp hg ha hpm hh h0
+    obtain ⟨now', w, h⟩ := open_next env hni s hp hg ha hpm hh h0
     have hcz : causeOf (loopStep env s) = causeOf s := by
       rw [h]; exact causeOf_congr s _ (by simp [nextState, h0]) rfl rfl (by simp [nextState, h0]) rfl rfl
     cases hu' : unfin (loopStep env s).P i
@@ -256,8 +266,11 @@ theorem completed_against_final_partial (env : Env) (wf : WF env) (hpm : env.pre
               (!(env.prematch && env.changeReq) && s.blocked)) = false
         rw [← adjusting_eq]; exact ha
       have hh' : isHandler (loopStep env s) = true := by unfold isHandler; rw [hcz]; exact hh
-      obtain ⟨k, hk, hcomp⟩ := ih (loopStep env s) hp' hg' ha' hh' (by rw [hcz]; exact hne)
-        (fun k hk => hopen (k + 1) (Nat.succ_lt_succ hk)) hc i (by rw [hcz]; exact hi) hu'
+      have hi' : i ∈ selOf env (loopStep env s) := by
+        rw [h]; rw [h] at hu'
+        exact selOf_next_mem env s h0 _ _ _ i hi hu'
+      obtain ⟨k, hk, hcomp⟩ := ih (loopStep env s) hp' hg' ha' hh'
+        (fun k hk => hopen (k + 1) (Nat.succ_lt_succ hk)) hc i hi' hu'
       refine ⟨k + 1, Nat.succ_le_succ hk, ?_⟩
       obtain ⟨h1, h2⟩ := hcomp
       refine ⟨h1, ?_⟩
@@ -265,11 +278,13 @@ theorem completed_against_final_partial (env : Env) (wf : WF env) (hpm : env.pre
       · exact Or.inl ⟨Nat.succ_lt_succ hlt, hr⟩
       · exact Or.inr ⟨by omega, hr⟩
 
-/-- Delayed handlers are always woken (formerly false of the code: C03-F7, repaired by 7224f57). Whatever
-    the patch of the cycle carries — also content that changes nothing on the server (`constPatch`) — a
+/-- FULL STATEMENT: delayed handlers are always woken, whatever the patch of the cycle carries. FALSE of the
+    code for a patch for which no request is sent (`idle env`: C03-N1, `idle_fns_lost_wakeup_witness`).
+    PROVED HERE for the other two patch classes (C03-F7, repaired by 7224f57): a patch that changes the
+    object, and content that changes nothing on the server (`constPatch`) — a
     pass that leaves the cycle open leaves an event pending: the echo of a PATCH that changed the object,
     or the touch after the sleep. -/
-theorem open_pass_leaves_event (env : Env) (s : State E) (hp : s.pending = true) (hg : s.gone = false)
+theorem open_pass_leaves_event_partial (env : Env) (hni : idle env = false) (s : State E) (hp : s.pending = true) (hg : s.gone = false)
     (ha : adjusting env s = false) (hpm : env.prematch = true) (hh : isHandler s = true)
     (hc : (pass env s).closed = false) :
     (loopStep env s).pending = true ∧ s.writes < (loopStep env s).writes := by
@@ -277,7 +292,7 @@ theorem open_pass_leaves_event (env : Env) (s : State E) (hp : s.pending = true)
   · unfold adjusting at ha; simp [h1] at ha
   · unfold adjusting at ha; simp [h1] at ha
   · rw [hpm] at h1; cases h1
-  · obtain ⟨now', w, hx⟩ := open_next env s hp hg ha hpm hh hc
+  · obtain ⟨now', w, hx⟩ := open_next env hni s hp hg ha hpm hh hc
     -- the release turn is excluded by `open_next`'s shape: it never keeps `blocked`
     rcases turn_cases env s hp hg with ⟨h1, _⟩ | ⟨h1, _⟩ | ⟨_, h1, _⟩ | ⟨_, _, _, hbl, _, h⟩ | ⟨_, _, _, _, h⟩
     · unfold adjusting at ha; simp [h1] at ha
@@ -290,7 +305,7 @@ theorem open_pass_leaves_event (env : Env) (s : State E) (hp : s.pending = true)
       rcases handleTurn_cases env s with ⟨_, h'⟩ | ⟨d, _, _, h'⟩ | ⟨_, hm, h'⟩
       · rw [h']; exact ⟨rfl, by simp [nextState]⟩
       · rw [h']; exact ⟨rfl, by simp [nextState]; omega⟩
-      · obtain ⟨_, _, hy⟩ := open_handle_pending env s hh hc
+      · obtain ⟨_, _, hy⟩ := open_handle_pending env hni s hh hc
         rw [h'] at hy
         have := congrArg State.pending hy
         simp [nextState] at this
@@ -298,24 +313,24 @@ theorem open_pass_leaves_event (env : Env) (s : State E) (hp : s.pending = true)
     rcases handleTurn_cases env s with ⟨_, h'⟩ | ⟨d, _, _, h'⟩ | ⟨_, hm, h'⟩
     · rw [h']; exact ⟨rfl, by simp [nextState]⟩
     · rw [h']; exact ⟨rfl, by simp [nextState]; omega⟩
-    · obtain ⟨_, _, hy⟩ := open_handle_pending env s hh hc
+    · obtain ⟨_, _, hy⟩ := open_handle_pending env hni s hh hc
       rw [h'] at hy
       have := congrArg State.pending hy
       simp [nextState] at this
 
 /-- After the last change, a handler that reached a final outcome in one turn of the loop is not
     invoked in any later turn of the same handling cycle (C02's once-per-cycle, along the closed loop). -/
-theorem invoked_once_after_last_change (env : Env) (wf : WF env) (hpm : env.prematch = true)
+theorem invoked_once_after_last_change (env : Env) (wf : WF env) (hni : idle env = false) (hpm : env.prematch = true)
     (s : State E) (hp : s.pending = true) (hg : s.gone = false) (ha : adjusting env s = false)
     (hh : isHandler s = true) (hne : NoExtras (cfgOf env s) s.P)
     (i : Id) (n : Nat) (hinv : (i, n) ∈ (pass env s).invoked) (hfin : (env.exec i n).final = true)
     (hopen : (pass env s).closed = false) (k : Nat) :
     ∀ l ∈ invsOf env k (loopStep env s), ∀ m, (i, m) ∉ l := by
-  obtain ⟨now', w, h⟩ := open_next env s hp hg ha hpm hh hopen
+  obtain ⟨now', w, h⟩ := open_next env hni s hp hg ha hpm hh hopen
   have hcz : causeOf (nextState env s now' true w) = causeOf s :=
     causeOf_congr s _ (by simp [nextState, hopen]) rfl rfl (by simp [nextState, hopen]) rfl rfl
-  have hcfg : cfgOf env (loopStep env s) = cfgOf env s := by rw [h]; unfold cfgOf; rw [hcz]
-  have hh' : isHandler (loopStep env s) = true := by rw [h]; unfold isHandler; rw [hcz]; exact hh
+  have hcz' : causeOf (loopStep env s) = causeOf s := by rw [h]; exact hcz
+  have hh' : isHandler (loopStep env s) = true := by unfold isHandler; rw [hcz']; exact hh
   have hp' : (loopStep env s).pending = true := by rw [h]; rfl
   have hg' : (loopStep env s).gone = false := by rw [h]; exact hg
   have ha' : adjusting env (loopStep env s) = false := by
@@ -324,22 +339,33 @@ theorem invoked_once_after_last_change (env : Env) (wf : WF env) (hpm : env.prem
           (!(env.prematch && env.changeReq) && s.blocked)) = false
     rw [← adjusting_eq]; exact ha
   have hP : (loopStep env s).P = (cycle (cfgOf env s) s.P s.now s.now env.exec).P' := by rw [h]; rfl
-  rw [invs_eq env hpm k (loopStep env s) hp' hg' ha' hh', hcfg, hP]
-  exact once_per_cycle (cfgOf env s) (fun i hi => wf.sub _ i hi) s.P hne ⟨s.now, s.now, env.exec⟩
-    (toSteps (stepsOf env k (loopStep env s))) i n hinv hfin hopen
+  rw [invs_eq env hni hpm k (loopStep env s) hp' hg' ha' hh', hcz', hP]
+  have hsubs : ∀ st ∈ (⟨s.now, s.now, env.exec, selOf env s, env.limits, env.lifecycle⟩ : StepV) ::
+      toSteps env (stepsOf env k (loopStep env s)), ∀ j ∈ st.selected, j ∈ env.owned := by
+    intro st hst j hj
+    rcases List.mem_cons.1 hst with rfl | hst
+    · exact selOf_sub env wf s j hj
+    · exact toSteps_sub env wf k _ st hst j hj
+  exact once_per_cycle_varying env.owned (C14.reasonStr (causeOf s).reason) hh s.P hne
+    ⟨s.now, s.now, env.exec, selOf env s, env.limits, env.lifecycle⟩
+    (toSteps env (stepsOf env k (loopStep env s))) hsubs i n hinv hfin hopen
 
 /-- RESTART SAFETY, over whole histories. Take a freshly created object and ANY finite history of:
     turns of the operator with ARBITRARY handler outcomes (failures included), external edits, deletion
     requests, operator restarts, and kills — before the in-flight write reached the server
-    (`lostWrite`) or after the server applied it (`turn` then `restart`). The state it leads to meets the
-    hypothesis of `terminates`: once handlers stop failing, the loop converges from there, within the
-    bound of that state. (Induction over the history; restarts keep what the object carries.) -/
-theorem restart_safe (env : Env) (wf : WF env) (hfin : AllFinal env) (acts : List (Act E)) (e : E) (t : Tick) :
-    Uniform env (runActs env (created e t) acts) ∧
-    ∃ m, m ≤ bound env (runActs env (created e t) acts) ∧
-      (iter env m (runActs env (created e t) acts)).pending = false := by
+    (`lostWrite`) or after the server applied it (`turn` then `restart`) — where EVERY action may come with
+    its own environment (selection, prematch, finalizer requirement, limits, lifecycle, latencies: label
+    edits and operator upgrades), all over the same registered handler ids. The state it leads to meets
+    the hypothesis of `terminates` for the environment in force in the end: once handlers stop failing,
+    the loop converges from there, within the bound of that state. (Induction over the history.)
+    Not an action: a kill between the two requests of a releasing turn (C08's transport). -/
+theorem restart_safe (env : Env) (wf : WF env) (hfin : AllFinal env) (hist : List (Env × Act E))
+    (hall : ∀ ea ∈ hist, WF ea.1 ∧ ea.1.owned = env.owned) (e : E) (t : Tick) :
+    Uniform env (runActsV (created e t) hist) ∧
+    ∃ m, m ≤ bound env (runActsV (created e t) hist) ∧
+      (iter env m (runActsV (created e t) hist)).pending = false := by
   have hu0 : UniformOn env.owned (created e t).P := ⟨"", fun i _ r h => by simp [created] at h⟩
-  have hu := runActs_uniform env wf acts (created e t) hu0
+  have hu := runActsV_uniform env.owned hist hall (created e t) hu0
   exact ⟨hu, terminates env wf hfin _ hu⟩
 
 /-- ACCUMULATED CHANGE. However many edits were made while no operator ran, (a) the first cause the new
@@ -397,12 +423,44 @@ theorem blind_quiescent (env : Env) (hpm : env.prematch = false) (s : State E) (
   · rw [hpm] at h1; cases h1
   · rw [hpm] at h1; cases h1
 
+/-- A marked object that the own finalizer does not hold (any more) — released, or never blocked — and that
+    still exists because somebody else's finalizer holds it: the cause is FREE; the event is consumed,
+    nothing is written, whatever records and last-handled state are on the object stay as they are. -/
+theorem free_quiescent (env : Env) (s : State E) (hp : s.pending = true) (hg : s.gone = false)
+    (hmk : s.marked = true) (hbl : s.blocked = false) :
+    (loopStep env s).pending = false ∧ (loopStep env s).writes = s.writes + cp env ∧
+    (loopStep env s).base = s.base ∧ (∀ i, (loopStep env s).P i = s.P i) ∧ (loopStep env s).gone = false := by
+  have hreason : (causeOf s).reason = .free := by
+    unfold causeOf C05.detect C05.detectReason; simp [hmk, hbl]
+  have hh : isHandler s = false := by unfold isHandler; rw [hreason]; decide
+  have hr : handlerReasons.contains (cfgOf env s).reason = false := hh
+  have hnn : ((cfgOf env s).reason == "noop") = false := by
+    show (C14.reasonStr (causeOf s).reason == "noop") = false
+    rw [hreason]; decide
+  have hk := cycle_not_handler_reason_keeps (cfgOf env s) s.P s.now s.now env.exec hr hnn
+  have hinv := cycle_not_handler_reason_invoked (cfgOf env s) s.P s.now s.now env.exec hr
+  have hcl : (pass env s).closed = false := hinv.2
+  have hP : (pass env s).P' = s.P := hk
+  have hdl : (pass env s).delays = [] := by unfold pass; rw [cycle_not_handler_reason _ _ _ _ _ hr]
+  have hnc : changedOf env s = false := by unfold changedOf; rw [hP, hcl]; simp
+  rcases turn_cases env s hp hg with ⟨_, h1, _⟩ | ⟨_, h1, _⟩ | ⟨_, _, h⟩ | ⟨_, _, _, h1, _⟩ | ⟨_, _, _, _, h⟩
+  · rw [hmk] at h1; cases h1
+  · rw [hbl] at h1; cases h1
+  · rw [h]; exact ⟨rfl, rfl, rfl, fun _ => rfl, hg⟩
+  · rw [hbl] at h1; cases h1
+  · rw [h]
+    rcases handleTurn_cases env s with ⟨h', _⟩ | ⟨d, _, hm, _⟩ | ⟨_, _, h'⟩
+    · rw [hnc] at h'; cases h'
+    · rw [hdl] at hm; simp [minDelay] at hm
+    · rw [h']
+      exact ⟨rfl, rfl, by simp [nextState, hcl], fun i => by simp [nextState, hP], hg⟩
+
 /-- The `skip` pass (a handler reason, but no handler selected any more — e.g. the retrying handler's
     label filter stopped matching): the cycle is closed, the last-handled state becomes the essence and
     EVERY owned progress record is purged. (Formerly false of the code: C03-F1, repaired by 2ae938f.) -/
 theorem skip_path_purges (env : Env) (s : State E) (hp : s.pending = true) (hg : s.gone = false)
     (ha : adjusting env s = false) (hpm : env.prematch = true) (hmk : s.marked = false)
-    (hh : isHandler s = true) (he : (env.sel (causeOf s)).isEmpty = true) :
+    (hh : isHandler s = true) (he : (selOf env s).isEmpty = true) :
     (loopStep env s).base = some s.ess ∧ (loopStep env s).fullyHandled = true ∧
     ∀ i ∈ env.owned, (loopStep env s).P i = none := by
   obtain ⟨hc, hn⟩ := closed_purges_skip (cfgOf env s) s.P s.now s.now env.exec hh he
@@ -479,13 +537,14 @@ def retryingRec : Rec :=
 /-- handlers: `c0` (creation, no filter) and `u0` (update, label-filtered: does not match the object any more) -/
 def envW (prematch : Bool) : Env :=
   { owned := ["c0", "u0"], subs := [], sel := fun c => if c.reason = .create then ["c0"] else [],
+    initialH := fun _ => false, idleFns := false,
     limits := fun _ => ⟨none, none⟩, lifecycle := .asap, exec := fun _ _ => okOutcome,
     prematch := prematch, changeReq := false, foreignFins := false, constPatch := false, lat := 1, rtt := 1, cap := 38400 }
 
 def stateW (base : Option Nat) (ess : Nat) : State Nat :=
   { P := fun i => if i = "u0" then some retryingRec else none, base := base, ess := ess,
     marked := false, blocked := false, gone := false,
-    noticed := false, fullyHandled := true, now := 256, pending := true, writes := 0 }
+    noticed := false, fullyHandled := true, resumed := [], now := 256, pending := true, writes := 0 }
 
 theorem envW_wf (b : Bool) : WF (envW b) := by
   refine ⟨?_, by cases b <;> decide, by cases b <;> decide, by cases b <;> decide⟩
@@ -544,13 +603,14 @@ theorem blind_witness :
 /-- two update handlers, all at once; `u2` fails temporarily on its first attempt -/
 def envA : Env :=
   { owned := ["u1", "u2"], subs := [], sel := fun c => if c.reason = .update then ["u1", "u2"] else [],
+    initialH := fun _ => false, idleFns := false,
     limits := fun _ => ⟨none, none⟩, lifecycle := .allAtOnce,
     exec := fun i n => if i = "u2" ∧ n = 0 then tempOutcome 64 else okOutcome,
     prematch := true, changeReq := false, foreignFins := false, constPatch := false, lat := 1, rtt := 1, cap := 38400 }
 
 def stateA : State Nat :=
   { P := fun _ => none, base := some 0, ess := 1, marked := false, blocked := false, gone := false,
-    noticed := false, fullyHandled := true, now := 0, pending := true, writes := 0 }
+    noticed := false, fullyHandled := true, resumed := [], now := 0, pending := true, writes := 0 }
 
 /-- the state of `absorbed_change_witness` when the last change (essence := 2) arrives -/
 def stateA2 : State Nat := { loopStep envA stateA with ess := 2 }
@@ -576,21 +636,86 @@ theorem absorbed_change_witness :
   · exact absurd hu (by decide)
   · exact absurd hu (by decide)
 
+/-- one update handler; every cycle's patch holds a transformation function that yields no operation -/
+def envI : Env :=
+  { owned := ["u0"], subs := [], sel := fun c => if c.reason = .update then ["u0"] else [],
+    initialH := fun _ => false, idleFns := true,
+    limits := fun _ => ⟨none, none⟩, lifecycle := .asap, exec := fun _ _ => okOutcome,
+    prematch := true, changeReq := false, foreignFins := false, constPatch := false, lat := 1, rtt := 1, cap := 38400 }
+
+/-- C03-N1 (open): the NEGATION of the unguarded `final_state` / `open_pass_leaves_event`. The update handler
+    `u0` failed temporarily and sleeps until tick 512; the cycle's patch is non-empty but holds only a
+    transformation function that yields no operation (an idempotent one, already satisfied): no request is
+    sent, `apply` nevertheless takes the patch for a change and skips the sleep-and-touch — the loop is
+    quiescent after ONE turn with the handler unfinished, its record in place and the last-handled state
+    stale. Every hypothesis of `terminates`/`final_state_partial` but `idle env = false` holds. -/
+theorem idle_fns_lost_wakeup_witness :
+    WF envI ∧ AllFinal envI ∧ Uniform envI (stateW (some 0) 1) ∧ envI.prematch = true ∧ idle envI = true ∧
+    isHandler (stateW (some 0) 1) = true ∧ "u0" ∈ selOf envI (stateW (some 0) 1) ∧
+    (pass envI (stateW (some 0) 1)).closed = false ∧
+    (iter envI 1 (stateW (some 0) 1)).pending = false ∧
+    (iter envI 1 (stateW (some 0) 1)).base ≠ some 1 ∧
+    unfin (iter envI 1 (stateW (some 0) 1)).P "u0" = true ∧
+    (iter envI 1 (stateW (some 0) 1)).writes = 0 := by
+  refine ⟨⟨?_, by decide, by decide, by decide⟩, fun _ _ => rfl, ⟨"update", ?_⟩, rfl, by decide, by decide,
+    by decide, by decide, by decide, by decide, by decide, by decide⟩
+  · intro c i hi
+    simp only [envI] at hi ⊢
+    split at hi
+    · exact hi
+    · simp at hi
+  · intro i _ r hP
+    simp only [stateW] at hP
+    split at hP
+    · cases hP; rfl
+    · cases hP
+
+/-- one id `h` registered for update AND deletion (stacked decorators on one function), and a sibling `u2` -/
+def envS : Env :=
+  { owned := ["h", "u2"], subs := [],
+    sel := fun c => if c.reason = .update then ["h", "u2"] else if c.reason = .delete then ["h"] else [],
+    initialH := fun _ => false, idleFns := false,
+    limits := fun _ => ⟨none, none⟩, lifecycle := .asap, exec := fun _ _ => okOutcome,
+    prematch := true, changeReq := true, foreignFins := false, constPatch := false, lat := 1, rtt := 1, cap := 38400 }
+
+/-- the update cycle is open (`h` succeeded, `u2` is retrying) when the deletion request arrives -/
+def stateS : State Nat :=
+  { P := fun i => if i = "h" then some { retryingRec with delayed := none, success := true }
+                  else if i = "u2" then some retryingRec else none,
+    base := some 0, ess := 1, marked := true, blocked := true, gone := false,
+    noticed := false, fullyHandled := true, resumed := [], now := 256, pending := true, writes := 0 }
+
+/-- C03-N3 (open): another NEGATION of the full statement above `completed_against_final_partial`. The
+    deletion cause selects `h`; its record — the finished UPDATE record of the same id — is re-purposed as
+    the deletion record, so the cycle closes at once: nothing is invoked, the finalizer is released, the
+    object is gone, and the deletion handler `h` was never called. -/
+theorem shared_id_witness :
+    isHandler stateS = true ∧ (causeOf stateS).reason = .delete ∧ "h" ∈ selOf envS stateS ∧
+    (pass envS stateS).invoked = [] ∧ (pass envS stateS).closed = true ∧
+    (iter envS 1 stateS).pending = false ∧ (iter envS 1 stateS).gone = true ∧
+    ¬ (∃ k, k ≤ 0 ∧ CompletedIn envS stateS 0 k "h") := by
+  refine ⟨by decide, by decide, by decide, by decide, by decide, by decide, by decide, ?_⟩
+  rintro ⟨k, hk, hu, _⟩
+  have : k = 0 := by omega
+  subst this
+  exact absurd hu (by decide)
+
 /-- a mandatory deletion handler `d0` that fails once; the object is marked and holds our finalizer -/
 def envD (foreign : Bool) : Env :=
   { owned := ["d0"], subs := [], sel := fun c => if c.reason = .delete then ["d0"] else [],
+    initialH := fun _ => false, idleFns := false,
     limits := fun _ => ⟨none, none⟩, lifecycle := .asap,
     exec := fun _ n => if n = 0 then tempOutcome 64 else okOutcome,
     prematch := true, changeReq := true, foreignFins := foreign, constPatch := false, lat := 1, rtt := 1, cap := 38400 }
 
 def stateD : State Nat :=
   { P := fun _ => none, base := some 0, ess := 0, marked := true, blocked := true, gone := false,
-    noticed := false, fullyHandled := true, now := 0, pending := true, writes := 0 }
+    noticed := false, fullyHandled := true, resumed := [], now := 0, pending := true, writes := 0 }
 
 /-- a live object that needs the finalizer first: the adding turn, then the creation -/
 def stateN : State Nat :=
   { P := fun _ => none, base := none, ess := 0, marked := false, blocked := false, gone := false,
-    noticed := false, fullyHandled := false, now := 0, pending := true, writes := 0 }
+    noticed := false, fullyHandled := false, resumed := [], now := 0, pending := true, writes := 0 }
 
 -- non-vacuity of `terminates` / `converges` / `completed_against_final_partial` /
 -- `invoked_once_after_last_change` / `all_selected_completed`: a state with two unfinished selected handlers
